@@ -122,7 +122,17 @@ def concretize(ex, st, napps):
                     uc['manifest'] = {'version': '9.9.9.9', 'actions': {'action': []}, 'packages': {'package': [{'name': 'p', 'required': True, 'fp': 'f'}]}}
                 ja['updatecheck'] = uc
             elif a.has_update is False:
-                ja['updatecheck'] = {'status': 'noupdate'}
+                if getattr(a, 'has_uc', 1) != 0:
+                    # the status class the path decided on, else one consistent with it (plain "noupdate" preferred)
+                    stt = getattr(a, 'status_term', None)
+                    names_ = (('NoUpdate', 'noupdate'), ('Restricted', 'restricted'), ('Error', 'error-unknownApplication'))
+                    pick = 'noupdate'
+                    if stt is not None:
+                        for vn, txt in names_:
+                            if ex.check(st, [stt == ex.src.variant_index('OmahaStatus', vn)]) == 'sat':
+                                pick = txt
+                                break
+                    ja['updatecheck'] = {'status': pick}
             apps.append(ja)
         body = json.dumps({'response': {'server': 'prod', 'protocol': '3.0', 'app': apps}})
     first_ok_seen = False
